@@ -2,7 +2,7 @@
 
 Two generated inputs per case:
 
-* a *fitness matrix* (population 1..64 x goals 1..12, values from a small set so that ties are frequent, a few exact
+* a *fitness matrix* (population 1..64 x goals 0..12, values from a small set so that ties are frequent, a few exact
   clones) turned into real ``TestCaseChromosome``s (distinct test-case code per distinct row, drawn lengths) with
   table-driven fitness functions; ``RankBasedPreferenceSorting``, ``DominanceComparator`` and
   ``fast_epsilon_dominance_assignment`` are compared with an independent O(n^2) Pareto computation;
@@ -26,10 +26,10 @@ META = {
     "technique": "property-based testing: Hypothesis-drawn fitness matrices / biases / scripted random draws vs an independent "
                  "O(n^2) Pareto computation and interval-width measurement by bisection on the real selection function",
     "design_ref": "DESIGN.md §3 C14",
-    "rule": "case = fitness matrix (n in 1..64 individuals x 1..12 goals, values from {0,.25,.5,1,1.5,2,3} plus drawn finite floats, "
+    "rule": "case = fitness matrix (n in 1..64 individuals x 0..12 ranked goals + 0..3 carried-but-unranked fitness functions, values from {0,.25,.5,1,1.5,2,3} plus drawn finite floats, "
             "<= 3 clones, lengths 0..3, configured population size around the front sizes, scripted tie-break draws) + selection query "
             "(bias from [1,2] u (2,4] incl. 1.0, next-after-1.0, 2.0; n in 1..64; draws incl. 0.0 and 1-2^-53); non-trivial = the "
-            "matrix has >= 2 goals, >= 3 individuals, a tie on some goal minimum and >= 2 fronts; distinct by the whole case",
+            "matrix has >= 2 goals, >= 3 individuals, a tie on some goal minimum and >= 2 fronts, or an empty goal set with >= 3 individuals; distinct by the whole case",
     "assumptions": [
         "rank_bias has no documented range in configuration.py ('Bias for better individuals in rank selection'); the domain used is "
         "the one named by the property: [1.0, 2.0] and above (here up to 4.0). 1.0 is the no-pressure end of linear ranking",
@@ -66,7 +66,8 @@ def strategy(ctx) -> st.SearchStrategy:
     draw = st.one_of(st.sampled_from(EDGE_R), st.floats(0.0, ONE_MINUS))
     return st.fixed_dictionaries({
         "rank": st.fixed_dictionaries({
-            "goals": st.integers(1, 12),
+            "goals": st.sampled_from([0, 0, 1, 1, 2, 2, 3, 3, 4, 5, 6, 8, 10, 12]),
+            "carried": st.integers(0, 3),  # fitness functions the individuals carry that are not among the ranked goals
             "rows": matrix,
             "lens": st.lists(st.integers(0, 3), min_size=8, max_size=8),
             "clones": st.lists(st.integers(0, 63), max_size=3),
@@ -162,7 +163,9 @@ def _make_population(rows: list[list[float]], lens: list[int], ids: list[int]) -
     return pop, goals
 
 
-def _dominates(a: list[float], b: list[float]) -> bool:
+def _dominates(a: list[float], b: list[float], g: int | None = None) -> bool:
+    """Pareto dominance w.r.t. the first ``g`` columns (the ranked goals); nobody dominates w.r.t. the empty set."""
+    a, b = (a, b) if g is None else (a[:g], b[:g])
     return all(x <= y for x, y in zip(a, b)) and any(x < y for x, y in zip(a, b))
 
 
@@ -191,7 +194,8 @@ def _check_ranking(rc: dict[str, Any], out: Outcome) -> None:
     from pynguin.utils.orderedset import OrderedSet
 
     g = rc["goals"]
-    rows = [[FIT[v] if isinstance(v, int) else float(v) for v in r[:g]] for r in rc["rows"]]
+    width = max(1, min(12, g + rc.get("carried", 0)))  # columns >= g are covered goals: carried by the individuals, not ranked
+    rows = [[FIT[v] if isinstance(v, int) else float(v) for v in r[:width]] for r in rc["rows"]]
     n0 = len(rows)
     ids = list(range(n0)) + [c % n0 for c in rc["clones"]]
     n = len(ids)
@@ -199,7 +203,7 @@ def _check_ranking(rc: dict[str, Any], out: Outcome) -> None:
 
     def fresh() -> tuple[list[Any], Any]:
         pop, goals = _make_population(rows, rc["lens"], ids)
-        return pop, OrderedSet(goals)
+        return pop, OrderedSet(goals[:g])
 
     # ---- DominanceComparator vs the Pareto definition (all ordered pairs, bounded)
     pop, goals = fresh()
@@ -207,10 +211,11 @@ def _check_ranking(rc: dict[str, Any], out: Outcome) -> None:
     lim = min(n, 12)
     for i in range(lim):
         for j in range(lim):
-            want = -1 if _dominates(pop[i].vf_row, pop[j].vf_row) else (1 if _dominates(pop[j].vf_row, pop[i].vf_row) else 0)
+            want = -1 if _dominates(pop[i].vf_row, pop[j].vf_row, g) else (1 if _dominates(pop[j].vf_row, pop[i].vf_row, g) else 0)
             got = cmp.compare(pop[i], pop[j])
             if got != want:
-                out.fail(f"DominanceComparator.compare|expected:{want}|got:{got}", f"{pop[i].vf_row} vs {pop[j].vf_row}")
+                out.fail(f"DominanceComparator.compare|{'no-goals' if g == 0 else 'goals'}|expected:{want}|got:{got}",
+                         f"{pop[i].vf_row} vs {pop[j].vf_row} w.r.t. the first {g} columns")
                 break
 
     # ---- ranking: first learn the size of front 0 for the drawn coin script (a dry run with a huge population setting),
@@ -270,11 +275,11 @@ def _check_ranking(rc: dict[str, Any], out: Outcome) -> None:
             if not remaining:
                 out.fail("ranking|front-built-from-nothing|-", f"front {k}")
                 break
-            want = sorted(u for u in remaining if not any(_dominates(rows[v], rows[u]) for v in remaining))
+            want = sorted(u for u in remaining if not any(_dominates(rows[v], rows[u], g) for v in remaining))
             got = ms(fronts[k])
             if got != want:
                 kind = "missing" if set(want) - set(got) else ("extra" if set(got) - set(want) else "multiplicity")
-                out.fail(f"ranking|later-front-differs-from-pareto-set|{kind}{'|clones' if has_clones else ''}",
+                out.fail(f"ranking|later-front-differs-from-pareto-set|{kind}{'|clones' if has_clones else ''}{'|no-goals' if g == 0 else ''}",
                          f"front {k}: got ids {got}, pareto set of unranked {want}; rows {rows}; ids {ids}")
                 break
             for u in got:
@@ -312,7 +317,10 @@ def _check_ranking(rc: dict[str, Any], out: Outcome) -> None:
             break
 
     tie = any(sum(1 for r in rows if r[j] == min(x[j] for x in rows)) >= 2 for j in range(g))
-    out.nontrivial = g >= 2 and n >= 3 and tie and len([f for f in fronts if f]) >= 2
+    out.nontrivial = (g >= 2 and n >= 3 and tie and len([f for f in fronts if f]) >= 2) or (g == 0 and n >= 3 and width >= 2)
+    out.labels.append("goals:0" if g == 0 else "goals:1" if g == 1 else "goals:2+")
+    if width > g:
+        out.labels.append("class:carries-unranked-fitness-functions")
     if tie:
         out.labels.append("class:tie-on-goal-minimum")
     if script.calls:
